@@ -618,8 +618,9 @@ class BitStream(ConstBitStream, bitstring.BitArray):
             pos += len(self)
         if pos < 0 or pos > len(self):
             raise ValueError("Overwrite starts outside boundary of bitstring.")
+        end_pos = pos + len(bs)
         self._overwrite(bs, pos)
-        self._pos = pos + len(bs)
+        self._pos = end_pos
 
     def prepend(self, bs: BitsType, /) -> None:
         """Prepend a bitstring to the current bitstring.
